@@ -21,8 +21,9 @@ from harness.lib import common
 
 PROP = 'C14'
 PROP_FILE = 'Props/C14.v'
-THEOREMS = ['C14_refines', 'C14_readd_preserves', 'C14_checkout_correct', 'C14_checkin_increments_by_one',
-            'C14_release_exact', 'C14_only_remove_deletes', 'C14_reopen_identity']
+THEOREMS = ['C14_refines', 'C14_stored_once', 'C14_readd_preserves', 'C14_checkout_correct', 'C14_checkout_match_meaning',
+            'C14_checkin_increments_by_one', 'C14_update_one_exact', 'C14_release_exact', 'C14_only_remove_deletes',
+            'C14_reopen_identity']
 TRUSTED = [
     'hand-written SQL-level model Model/UrlTable.v of sqltable.py/sqlmodel.py (the statements sent to SQLite, acting on '
     'url_strings / queued_urls / warc_visits with rowid = max+1, UNIQUE / NOT NULL + INSERT OR IGNORE, scalar sub-selects, '
@@ -449,7 +450,7 @@ def parse_coq(out):
 # --------------------------------------------------------------------------- running
 def _impl(cases, per=40):
     shards = [cases[i:i + per] for i in range(0, len(cases), per)]
-    outs = common.run_impl_sharded('c14_impl.py', [{'alphabet': ALPHABET, 'cases': s} for s in shards])
+    outs = common.run_impl_sharded('c14_impl.py', [{'alphabet': ALPHABET, 'cases': s} for s in shards], par=6)
     res = []
     bad = {}
     for o in outs:
@@ -546,7 +547,7 @@ def correspondence(ctx):
     impl_text = [[ser_step(s) for s in res] for res in results]
     # model side, inside Coq
     files = [coq_file([c['ops'] for c in cases[i:i + per_file]], bad) for i in range(0, len(cases), per_file)]
-    outs = common.coq_eval_many(files, timeout=900)
+    outs = common.coq_eval_many(files, timeout=900, par=6)
     disagreements = []
     for fi, (rc, out) in enumerate(outs):
         chunk = cases[fi * per_file:(fi + 1) * per_file]
@@ -587,6 +588,8 @@ def correspondence(ctx):
         if readd or rel:
             nontriv.add(json.dumps(case['ops'], sort_keys=True))
     ctx.c14_cases = (cases, results, bad)
+    violations = _violations(cases, results, bad)
+    ctx.c14_violations = violations
     return {
         'evaluations': len(cases),
         'distinct_nontrivial': len(nontriv),
@@ -603,13 +606,15 @@ def correspondence(ctx):
                                                   'mean': round(steps / len(cases), 1)}},
         'oracle_samples': {'URLInfo.parse rejects': {u: b for u, b in bad.items() if b}},
         'disagreements': disagreements,
-        'impl_violations': _violations(cases, results, bad),
+        'impl_violations': violations,
     }
 
 
 def search(ctx, disagreements):
     """look harder for a history on which the table differs from the keyed-map reference
     (no Coq in the loop): 10x volume, longer histories, all modes."""
+    if getattr(ctx, 'c14_violations', None):
+        return []                     # the correspondence run already holds concrete failing histories
     r = common.rng('c14-search')
     cases = _histories(r, 4000, 80) + _histories(r, 200, 400)
     results, bad = _impl(cases)
